@@ -117,7 +117,7 @@ CHECKS = {
         "technique": "exhaustive enumeration of integrate() call histories over a lattice of integrators x step sizes x start times x target offsets x directions x exact_finish_time, with a recording heartbeat; exit conditions placed at every chosen step boundary",
         "text": "18 integrator variants (all types, safe/unsafe/keep modes, IAS15 with min_dt on an e=0.95 orbit) x dt{0.1,0.3,pi/10,7} x t0{0,1.7,-2.3,(1e6)} x every composition of the offsets {0,dt/3,dt,2dt,2.5dt,10dt,10dt(1+-1e-13)} into 1-2 (quick) / 3 (thorough) "
                 "consecutive calls x both directions x exact_finish_time{0,1}: finishing time (1e-12 relative / less than one step past), monotone time at every heartbeat, step size restored, step count = ceil((T-t)/dt) in exact rational arithmetic, no-op on T=t (bitwise), "
-                "split-equals-single-call bitwise. Exit conditions (escape, encounter, halting collision, user stop, no particles; with and without variational particles) are made true at boundary 0,1,2,5,12: the harness evaluates the predicate on the heartbeat-recorded exit-free trajectory and demands the stop at the first true boundary with the matching exception. Every call runs under a 20 s alarm.",
+                "split-equals-single-call bitwise. Exit conditions (escape, encounter, halting collision, user stop, no particles; with and without variational particles) are made true at boundary 0,1,2,5,12: the harness evaluates the predicate on the heartbeat-recorded exit-free trajectory and demands the stop at the first true boundary with the matching exception. Every call runs under a 20 s alarm. TRACE through a pericentre passage and a close encounter x 3 peri modes x both directions of time: returns, ends at the requested time, moves, agrees with IAS15 to its accuracy class.",
         "note": "One 3-body system; predicates for escape/encounter thresholds are chosen from the recorded trajectory; step counts not demanded within 1e-8 of a step boundary.",
     },
     "C09": {
